@@ -9,9 +9,13 @@ V = os.path.dirname(os.path.dirname(os.path.abspath(__file__)))
 ALL = "C01 C09 C08 C06 C04 C07 C03 C05 C11 C02 C14 C13 C12 C10 C19 C17 C15 C18 C20 C16".split()
 def order(f):
     first = []
-    if f == 'main.go': first = "C18 C16 C20 C13 C12 C10 C01".split()
-    elif 'x/text' in f: first = "C14 C01 C16 C13".split()
-    elif 'mathutils' in f: first = "C05 C15 C02 C17".split()
+    # files whose code only some checks execute: the others cannot notice anything
+    if f == 'main.go': return "C18 C16 C20 C12".split()
+    if 'x/text' in f: return "C14 C01 C16 C13 C12 C20".split()
+    if 'mathutils' in f: return "C05 C15 C02 C17 C01".split()
+    if f.startswith('pkg/types'): return "C02 C17 C19 C03".split()
+    if f.startswith('pkg/yamlutils'): return "C13 C10 C18 C12 C20".split()
+    if False: pass
     elif f == 'pkg/codegen/utils.go': first = "C15 C03 C02 C01 C05 C08 C16".split()
     elif f.startswith('pkg/codegen'): first = "C01 C16 C12 C13 C02 C14 C09 C08".split()
     elif f.startswith('pkg/types'): first = "C02 C17 C19 C03".split()
